@@ -233,3 +233,62 @@ def solve(constraints, timeout_ms=20000, want_model=False, tactic=None):
     v = str(r)
     m = s.model() if (v == "sat" and want_model) else None
     return v, dt, m, s
+
+
+def abstract_nonlinear(constraints):
+    """sound weakening: every non-linear arithmetic subterm (product of two non-numerals, division by a non-numeral, power) is
+    replaced by a fresh real constant (same term -> same constant), so the query becomes linear real arithmetic over those
+    atoms.  unsat of the abstraction implies unsat of the original; sat/unknown of the abstraction says nothing."""
+    memo, fresh = {}, {}
+
+    def is_num(t):
+        return z3.is_rational_value(t) or z3.is_int_value(t) or z3.is_algebraic_value(t)
+
+    def atom(t):
+        k = t.get_id()
+        if k not in fresh:
+            fresh[k] = z3.Real("__nl%d" % len(fresh))
+        return fresh[k]
+
+    def go(t):
+        k = t.get_id()
+        if k in memo:
+            return memo[k]
+        if z3.is_app(t) and t.num_args() > 0:
+            kind = t.decl().kind()
+            if kind == z3.Z3_OP_MUL:
+                non = [a for a in t.children() if not is_num(a)]
+                if len(non) >= 2:
+                    r = atom(t)
+                    memo[k] = r
+                    return r
+            elif kind in (z3.Z3_OP_DIV, z3.Z3_OP_IDIV, z3.Z3_OP_MOD, z3.Z3_OP_REM):
+                if not is_num(t.arg(1)):
+                    r = atom(t)
+                    memo[k] = r
+                    return r
+            elif kind == z3.Z3_OP_POWER:
+                r = atom(t)
+                memo[k] = r
+                return r
+            ch = [go(a) for a in t.children()]
+            r = t.decl()(*ch) if kind != z3.Z3_OP_UNINTERPRETED or ch else t
+        else:
+            r = t
+        memo[k] = r
+        return r
+
+    return [go(c) for c in constraints]
+
+
+def solve_linear_first(constraints, timeout_ms=20000, want_model=False):
+    """try the linear abstraction (fast, sound for unsat) before the full non-linear query"""
+    t0 = time.time()
+    try:
+        v0 = solve(abstract_nonlinear(constraints), min(timeout_ms, 5000))[0]
+    except z3.Z3Exception:
+        v0 = "unknown"
+    if v0 == "unsat":
+        return "unsat", time.time() - t0, None, None, "L"
+    v, dt, m, s = solve(constraints, timeout_ms, want_model)
+    return v, time.time() - t0, m, s, "A"
